@@ -20,7 +20,8 @@ class Clause:
 
 
 class RaisesSpec:
-    def __init__(self, exc, when=None, ensures=None, label=None, modifies=None):
+    def __init__(self, exc, when=None, ensures=None, label=None, modifies=None, must=None):
+        self.must = (when is not None) if must is None else must  # condition => the call MUST raise
         self.exc = exc  # exception class name, e.g. 'ValueError', 'GeneratorError', 'cbor2.CBORDecodeError'
         self.when = Clause(label or exc, when, "raises-when") if when else None
         self.ensures = [Clause(f"{label or exc}.{i}", e, "raises-ensures") for i, e in enumerate(ensures or [])]
@@ -35,6 +36,7 @@ class Contract:
         self.props = list(props)
         self.doc = doc
         self.params = []  # [(name, Type)]
+        self.ghosts = []
         self.requires_ = []
         self.returns_ = []
         self.raises_ = []
@@ -62,6 +64,11 @@ class Contract:
         self.params.append((name, type_))
         return self
 
+    def ghost(self, name, type_):
+        """A specification-only parameter (existential witness of the precondition / abstract state)."""
+        self.ghosts.append((name, type_))
+        return self
+
     def let(self, name, text):
         self.lets.append((name, Clause(name, text, "let")))
         return self
@@ -74,12 +81,16 @@ class Contract:
         self.requires_.append(Clause(label, text, "requires"))
         return self
 
-    def returns(self, label, text, **extra):
-        self.returns_.append(Clause(label, text, "post", **extra))
+    def returns(self, label, text, via=None, **extra):
+        """Postcondition on normal return. `via`: a STRONGER formula that is proved instead (proof hint, e.g. an explicit
+        witness for an existential such as divisibility); callers assume `text`, native evaluation uses `text`."""
+        cl = Clause(label, text, "post", **extra)
+        cl.via = Clause(label + "@via", via, "post") if via else None
+        self.returns_.append(cl)
         return self
 
-    def raises(self, exc, when=None, ensures=None, label=None, modifies=None):
-        self.raises_.append(RaisesSpec(exc, when, ensures, label, modifies))
+    def raises(self, exc, when=None, ensures=None, label=None, modifies=None, must=None):
+        self.raises_.append(RaisesSpec(exc, when, ensures, label, modifies, must))
         return self
 
     def result(self, type_):
